@@ -478,3 +478,62 @@ func DeepChains(n, k int, mode string) []SDef {
 	}
 	return defs
 }
+
+// nodeDeep builds deeply nested operator trees (binary operators and shifts in every operand
+// position, few leaves): the shapes a printer needs brackets for.
+func (g *g2) nodeDeep(m Mode, d int) *SNode {
+	if d <= 0 {
+		return &SNode{K: KUnit}
+	}
+	switch x := g.r.Intn(12); {
+	case x == 0:
+		return &SNode{K: KUnit}
+	case x <= 3:
+		return &SNode{K: KSend, L: g.nodeDeep(m, d-1), R: g.nodeDeep(m, d-1-g.r.Intn(2))}
+	case x <= 6:
+		return &SNode{K: KRecv, L: g.nodeDeep(m, d-1), R: g.nodeDeep(m, d-1-g.r.Intn(2))}
+	case x <= 8:
+		var ks []Mode
+		for _, k := range AllModes {
+			if Geq(m, k) {
+				ks = append(ks, k)
+			}
+		}
+		k := ks[g.r.Intn(len(ks))]
+		return &SNode{K: KUp, From: g.sp(k), To: g.sp(m), L: g.nodeDeep(k, d-1)}
+	case x <= 10:
+		var ks []Mode
+		for _, k := range AllModes {
+			if Geq(k, m) {
+				ks = append(ks, k)
+			}
+		}
+		k := ks[g.r.Intn(len(ks))]
+		return &SNode{K: KDown, From: g.sp(k), To: g.sp(m), L: g.nodeDeep(k, d-1)}
+	default:
+		n := &SNode{K: []Kind{KPlus, KWith}[g.r.Intn(2)]}
+		for i := 0; i < 1+g.r.Intn(2); i++ {
+			n.Br = append(n.Br, SBranch{L: fmt.Sprintf("l%d", i), T: g.nodeDeep(m, d-1)})
+		}
+		return n
+	}
+}
+
+// GenDeepDefs returns 2..4 well-formed definitions with deeply nested bodies.
+func GenDeepDefs(r *rand.Rand) []SDef {
+	g := &g2{r: r}
+	var defs []SDef
+	for i := 0; i < 2+r.Intn(3); i++ {
+		m := AllModes[r.Intn(4)]
+		body := g.nodeDeep(m, 3+r.Intn(4))
+		for body.K == KUnit {
+			body = g.nodeDeep(m, 4)
+		}
+		d := SDef{Name: fmt.Sprintf("D%d", i), Body: body}
+		if body.K != KUp && body.K != KDown {
+			d.Ann = g.sp(m)
+		}
+		defs = append(defs, d)
+	}
+	return defs
+}
